@@ -390,9 +390,135 @@ def h_iter(F, res):
     res.floor("functions in the compile closure", len(reach), 80)
 
 
+def s_lang(F, res):
+    """S-LANG: the script-data hash commits to the language view of a script kind the witness set *carries*.  In the function
+    that builds the `LanguageView` (found by role, the crate's helpers inlined):
+      (pairing) the language id attached to each `plutus_vN_script` bucket is N-1, whether it is returned under the bucket's
+                `is_some()` test or produced by `bucket.as_ref().map(|_| id)`;
+      (order)   no minimum / maximum is taken over items that are still `Option`s - `None` sorts before every `Some`, so an
+                absent bucket would win the selection and the default language be hashed instead of the carried one.
+    A shape outside the two recognised ones is reported as not decided."""
+    cands = []
+    for p, f0 in F.fns.items():
+        if f0["crate"] != "tx3_cardano" or f0.get("derived") or f0["def_kind"] == "Closure":
+            continue
+        if any(st["rv"]["k"] == "agg" and st["rv"].get("adt", "").endswith("::LanguageView") for _, _, st in mir.stmts(f0)):
+            cands.append(f0)
+    if len(cands) != 1:
+        raise BrokenCheck("expected one function of tx3_cardano that builds a LanguageView, found %d" % len(cands))
+
+    def want(t, callee):
+        return callee["crate"] == "tx3_cardano" and not callee.get("impl_trait") and not callee.get("trait_default") and len(callee["blocks"]) <= 120
+    _KEEP_L.append(want)
+    f = mir.inline_calls(F, cands[0], want=want, depth=2)
+    du = mir.DefUse(f)
+    cfg = mir.CFG(f)
+    w = where(cands[0])
+    FIELD = re.compile(r"^\.?plutus_v(\d)_script$")
+
+    def bucket_of(op):
+        for o in mir.provenance(f, du, op, transparent_extra=("std::option::Option::<T>::as_ref", "std::option::Option::<T>::as_deref")):
+            for pr in o.proj:
+                m = FIELD.match(pr)
+                if m:
+                    return int(m.group(1))
+        return None
+    # locals on the way to the LanguageView's id
+    lv = [st for _, _, st in mir.stmts(f) if st["rv"]["k"] == "agg" and st["rv"].get("adt", "").endswith("::LanguageView")][0]
+    back, stack = set(), []
+    pl0 = mir.op_place(lv["rv"]["ops"][0])
+    if pl0 is not None:
+        stack.append(pl0["l"])
+    while stack:
+        l = stack.pop()
+        if l in back:
+            continue
+        back.add(l)
+        for d in du.defs.get(l, []):
+            if d[0] == "stmt" and d[3]["rv"]["k"] in ("use", "cast"):
+                p2 = mir.op_place(d[3]["rv"]["op"])
+                if p2 is not None:
+                    stack.append(p2["l"])
+            elif d[0] == "call":
+                for a in d[3]["args"][:1]:
+                    p2 = mir.op_place(a)
+                    if p2 is not None:
+                        stack.append(p2["l"])
+    pairs = {}      # bucket N -> set of ids
+    # (1) `if ws.plutus_vN_script.is_some() { id }`
+    tests = []
+    for bi, t in mir.calls(f):
+        if (t.get("callee") or "").endswith("Option::<T>::is_some") and t["args"]:
+            n = bucket_of(t["args"][0])
+            if n is None:
+                continue
+            sw = f["blocks"][t["t"]]["t"] if t.get("t") is not None else None
+            if sw and sw["k"] == "switch":
+                tm = dict((a, b) for a, b in sw["targets"])
+                true_t = sw["otherwise"] if 0 in tm else tm.get(1)
+                if true_t is not None:
+                    tests.append((n, true_t))
+    for bi, si, st in mir.stmts(f):
+        rv = st["rv"]
+        if rv["k"] == "use" and not st["lhs"]["p"] and st["lhs"]["l"] in back:
+            c = mir.op_const(rv["op"])
+            if c and "int" in c:
+                doms = [(n, tt) for n, tt in tests if cfg.dominates(tt, bi)]
+                # the innermost test whose true edge dominates the assignment
+                inner = [x for x in doms if not any(y is not x and cfg.dominates(x[1], y[1]) for y in doms)]
+                for n, tt in inner:
+                    pairs.setdefault(n, set()).add(c["int"])
+    # (2) `ws.plutus_vN_script.as_ref().map(|_| id)`
+    for bi, t in mir.calls(f):
+        if (t.get("callee") or "") == "std::option::Option::<T>::map" and t["args"]:
+            n = bucket_of(t["args"][0])
+            if n is None:
+                continue
+            for c in t.get("fnrefs") or ():
+                g = F.fns.get(c)
+                if g is None:
+                    continue
+                for _, _, st in mir.stmts(g):
+                    if st["lhs"]["l"] == 0 and not st["lhs"]["p"] and st["rv"]["k"] == "use":
+                        cc = mir.op_const(st["rv"]["op"])
+                        if cc and "int" in cc:
+                            pairs.setdefault(n, set()).add(cc["int"])
+    key = cands[0]["path"] + "|language id of each script bucket"
+    if not pairs:
+        res.add([assumption("S-LANG", key, w, "the way the language id is derived from the witness set's script buckets is not one of the recognised shapes (is_some chain, as_ref().map(|_| id)): not decided")])
+    else:
+        bad = ["plutus_v%d_script -> %s" % (n, sorted(ids)) for n, ids in sorted(pairs.items()) if ids != {n - 1}]
+        if bad:
+            res.add([finding("S-LANG", key, w, "a script bucket is given another language's id (%s; the ledger's ids are v1 = 0, v2 = 1, v3 = 2): the hash commits to a cost model of a language the witness set does not carry" % "; ".join(bad))])
+        else:
+            res.add([ok("S-LANG", key, w, ", ".join("plutus_v%d_script -> %d" % (n, n - 1) for n in sorted(pairs)))])
+    key2 = cands[0]["path"] + "|absent buckets take no part in an ordering"
+    ordered = []
+    for b in with_closures(F, f):
+        for bi, t in mir.calls(b):
+            c = t.get("callee") or ""
+            last = c.split("::")[-1]
+            dty = b["locals"][t["dest"]["l"]]
+            if c.startswith("std::iter::Iterator::") and last in ("min", "max", "min_by_key", "max_by_key", "min_by", "max_by") and dty.startswith("std::option::Option<std::option::Option<"):
+                ordered.append((b, t["line"], last))
+            elif c in ("std::cmp::Ord::min", "std::cmp::Ord::max", "std::cmp::min", "std::cmp::max") and dty.startswith("std::option::Option<"):
+                ordered.append((b, t["line"], last))
+            elif last in ("sort", "sort_unstable") and any(g_.startswith("std::option::Option<") for g_ in (t.get("gargs") or [])[:1]):
+                ordered.append((b, t["line"], last))
+    if ordered:
+        b, line, last = ordered[0]
+        res.add([finding("S-LANG", key2, where(b, line), "`%s` is taken over items that are still Options: None orders before every Some, so as soon as one script bucket is absent the selection yields None and the default language is hashed instead of the one the witness set carries" % last)])
+    else:
+        res.add([ok("S-LANG", key2, w, "no min / max / sort over Option-typed items on the way to the LanguageView")])
+
+
+_KEEP_L = []
+
+
 def run(ctx):
     F = ctx.F
     res = Result("C10")
+    res.rule("S-LANG", "the language view hashed is that of a script kind the witness set carries (id per bucket; absence never ordered)")
     res.rule("S-HASH", "hash, payload and the two hash fields come from the values that are shipped")
     res.rule("S-PRUNE", "no emptied inner map is re-inserted")
     res.rule("S-PRESENT", "a map is wrapped in Some(..) only where it is known to be non-empty")
@@ -402,5 +528,6 @@ def run(ctx):
     s_prune(F, res)
     s_present(F, res)
     s_sets(F, res)
+    s_lang(F, res)
     h_iter(F, res)
     return res
